@@ -23,7 +23,7 @@ a cycle can have (in [0,1], not NaN). NaN fractions, thresholds outside [0,1] / 
 the dtype of the label column are compared with the model only."""
 import math
 import numpy as np
-from harness import coqio
+from harness import coqio, tablelayout
 from harness.core import exc_kind
 
 STREAM = 'table_amp'
@@ -36,7 +36,8 @@ SHARD = 300
 COQ_STREAM = (COQ_HEADER, COQ_RUNNER, COQ_TYPES, SHARD)
 RULE = ('detect_bursts_amp on synthetic burst_fraction columns (values on, one ulp below / above the threshold, 0, 1, '
         'NaN), burst_fraction_threshold from a grid in [0,1] plus out-of-range / NaN values, min_n_cycles in -1..6, '
-        'default and non-default row labels; called a second time on the returned table with a threshold t\' >= t '
+        'default and non-default row labels, about 40 % of the tables with their columns in another order (sorted, '
+        'reversed, shuffled) and some with an unrelated extra column; called a second time on the returned table with a threshold t\' >= t '
         '(+0.1, next double, the fraction of one of its rows) or min_n_cycles + 1')
 ERRMAP = {'Value': 'EValue', 'Index': 'EIndex', 'Key': 'EKey', 'Type': 'EType'}
 
@@ -82,6 +83,8 @@ def cases(rng, tier):
                     'fr': fr, 'index': rng.choice(['default', 'default', 'offset', 'reversed', 'sparse']),
                     'raise': {'what': rng.choice(['t', 't', 't', 't', 'n']), 'how': rng.choice(['+0.1', 'next', 'row', 'row', 'same']),
                               'row': rng.randrange(1000)}})
+    for c in out:       # column layout, drawn last so that the tables themselves are those of earlier runs
+        c['cols'] = tablelayout.gen_layout(rng)
     return out
 
 
@@ -138,6 +141,8 @@ def run_impl(c):
         df.index = np.arange(len(fr))[::-1]
     elif ix == 'sparse':
         df.index = np.arange(len(fr)) * 3 + 1
+    lay = c.get('cols')
+    df = tablelayout.apply_layout(df, lay)      # columns are addressed by name; a table may carry columns of the user's own
     kw = _kwargs(c)
     try:
         res = detect_bursts_amp(df, **kw)
@@ -145,6 +150,9 @@ def run_impl(c):
         return {'err': exc_kind(e)}
     out = _read(res, len(fr))
     out['fractions_unchanged'] = bool(np.array_equal(np.asarray(res['burst_fraction']), np.array(fr, dtype=float), equal_nan=True))
+    if lay and lay.get('order', 'lib') != 'lib':
+        # the returned table (now with an is_burst column) is brought into the same kind of order again
+        res = tablelayout.apply_layout(res, {'order': lay['order'], 'seed': lay.get('seed', 0) + 1})
     t2, n2 = _raised(c)
     kw2 = dict(kw)
     if (c.get('raise') or {}).get('what') == 'n':
@@ -218,7 +226,7 @@ def nontrivial(c, o):
 
 
 def kind_of(c, o):
-    return KIND + ('/err' if 'err' in o else '')
+    return KIND + tablelayout.tag(c.get('cols')) + ('/err' if 'err' in o else '')
 
 
 def _res(o):
